@@ -155,3 +155,12 @@ Theorem C03_enum_index_conformance_refuted :
     conf_name_by_index e n = true /\ conf_name e n = false.
 Proof. exact index_conformance_refuted. Qed.
 Print Assumptions C03_enum_index_conformance_refuted.
+
+(* slice assignment (Model/Slice.v): conforming values written into a conforming list-based collection leave only
+   conforming values, for every pair of bounds; what a slice reads conforms as well *)
+From PyecoreV Require Import Model.Slice Proofs.SliceProofs.
+Theorem C03_slice_assignment_keeps_conformance :
+  forall (P : Z -> Prop) (a b : option Z) (ys l : list Z),
+    Forall P l -> Forall P ys -> Forall P (py_setslice a b ys l) /\ Forall P (py_getslice a b l).
+Proof. intros P a b ys l. exact (setslice_typed P a b ys l). Qed.
+Print Assumptions C03_slice_assignment_keeps_conformance.
